@@ -139,7 +139,7 @@ func vC10FsFile(fs CollectionFileSystem, w *vC10World, p string, rnd *rand.Rand)
 
 func vC10FsRun(s *vC10Scenario) (evs []vC10Ev) {
 	w := vC10NewWorld(s.Streams)
-	text := w.render(s.Streams, s.Hints)
+	text := w.render(s.Streams, false)
 	if s.Mut != "" {
 		text = vC10Mutate(text, s.Streams, s.Mut, s.MutArg)
 		_, kind, detail := vC10FsLoad(text, vC10Keep{w})
@@ -165,7 +165,7 @@ func vC10FsRun(s *vC10Scenario) (evs []vC10Ev) {
 	}
 	// portable data hash: the code's answer for the text as rendered (with hints) against MD5+length of the
 	// same abstract manifest rendered with every locator reduced to hash+size; SizedDigests as block ids
-	plain := w.render(s.Streams, 0)
+	plain := w.render(s.Streams, true)
 	pd := vC10Ev{"ev": "pdh", "got": PortableDataHash(text), "want": fmt.Sprintf("%x+%d", md5.Sum([]byte(plain)), len(plain)),
 		"dkind": "ok", "blocks": []int{}}
 	sds, err := (&Collection{ManifestText: text}).SizedDigests()
@@ -176,7 +176,7 @@ func vC10FsRun(s *vC10Scenario) (evs []vC10Ev) {
 		ids := []int{}
 		for _, sd := range sds {
 			id := w.idOfLocator(string(sd))
-			if _, known := w.hash[id]; !known || string(sd) != w.locator(id, 0, 0) {
+			if _, known := w.hash[id%10000]; !known || string(sd) != w.locator(id%10000) {
 				id = 9997 // not one of the blocks reduced to hash+size
 			}
 			ids = append(ids, id)
